@@ -141,6 +141,7 @@ def from_jsonable(v):
 # container is kept (restored in place), so aliases held by the code stay valid.  State a path's own earlier calls
 # leave behind still reaches its later calls: that is what the multi-call query families look at.
 _FROZEN: list = []
+_LRU: list = []           # functools.lru_cache wrappers of the package: cleared before every path and replay
 _CONTAINERS = (dict, list, set, collections.deque)
 
 
@@ -207,8 +208,10 @@ def freeze_process_state(prefix: str = "ombott") -> int:
     """remember the content of every module-level / class-level container of the package under test"""
     del _FROZEN[:]
     del _FROZEN_ATTRS[:]
+    del _LRU[:]
     _PREFIX[0] = prefix
     seen: set = set()
+    from functools import _lru_cache_wrapper
     for mname, m in sorted(sys.modules.items()):
         if m is None or not (mname == prefix or mname.startswith(prefix + ".")):
             continue
@@ -217,16 +220,22 @@ def freeze_process_state(prefix: str = "ombott") -> int:
                 continue
             if isinstance(val, _CONTAINERS):
                 _freeze_obj(val, 0, seen)
+            elif isinstance(val, _lru_cache_wrapper):    # memo tables of functools: empty in a fresh process
+                _LRU.append(val)
             elif isinstance(val, threading.local):       # this thread's view
                 _freeze_obj(val.__dict__, 0, seen)
             elif isinstance(val, type) and getattr(val, "__module__", None) == mname:
                 for an, av in list(vars(val).items()):
                     if not an.startswith("__") and isinstance(av, _CONTAINERS):
                         _freeze_obj(av, 0, seen)
+                    elif isinstance(av, _lru_cache_wrapper):
+                        _LRU.append(av)
     return len(_FROZEN)
 
 
 def restore_process_state() -> None:
+    for w in _LRU:
+        w.cache_clear()
     for obj, copy in _FROZEN:
         if isinstance(obj, list):
             obj[:] = copy
